@@ -6,7 +6,7 @@
 -/
 import ChessVerif.Lemmas.Trace
 import ChessVerif.Lemmas.TracePV
-import ChessVerif.Lemmas.EpExact
+import ChessVerif.Lemmas.WfStep
 namespace Chess.Props
 
 /-- C05 (bestmove): every accepted trace over a non-empty root move list ends with EXACTLY ONE bestmove, and it
@@ -64,6 +64,47 @@ theorem C05_pv_legal (root : Position) (R : List Nat) (t : List Ev) (s : AState)
     have := inv.reported pv hpv
     rw [inv.rootc] at this
     exact this
+
+/-- the engine codes of a line of rules-level moves, each taken in the position reached so far -/
+def codesOf : Spec.SPos → List Spec.SMove → List Nat
+  | _, [] => []
+  | s, m :: ms => codeOf s m :: codesOf (Spec.apply s m) ms
+
+/-- a line that is playable in the model (each move generated where it is played) is the code sequence of a legal game continuation
+    under the rules — from C01 (generated = legal), C02 (do_move = the rules' apply) and the invariance of well-formedness -/
+theorem legalLine_rules (codes : List Nat) : ∀ (p : Position), PlyOK p → Spec.wf (Chess.absPos p) = true →
+    p.halfmove + codes.length < 65535 → legalLine p codes = true →
+    ∃ sms, LegalGame (Chess.absPos p) sms ∧ codesOf (Chess.absPos p) sms = codes := by
+  induction codes with
+  | nil => intro p _ _ _ _; exact ⟨[], trivial, rfl⟩
+  | cons c cs ih =>
+    intro p hp hwf hh h
+    unfold legalLine at h
+    simp only [Bool.and_eq_true, List.contains_iff_mem] at h
+    obtain ⟨hc, hrest⟩ := h
+    obtain ⟨sm, hsm, hcode⟩ := (exact_all p hwf c).1 hc
+    simp only [List.length_cons] at hh
+    have hstep := refine_step T0 p sm (stepOK_of_legal _ hwf sm hsm) hp (by omega)
+    obtain ⟨e, hp'⟩ := hstep
+    rw [← hcode] at hrest
+    have hwf' : Spec.wf (Chess.absPos (doMove T0 p (codeOf (Chess.absPos p) sm)).1) = true := by rw [e]; exact wf_apply _ hwf sm hsm
+    have hh' : (doMove T0 p (codeOf (Chess.absPos p) sm)).1.halfmove + cs.length < 65535 := by
+      have : (Chess.absPos (doMove T0 p (codeOf (Chess.absPos p) sm)).1).halfmove = (doMove T0 p (codeOf (Chess.absPos p) sm)).1.halfmove := rfl
+      rw [← this, e, apply_half]
+      have hx : (Chess.absPos p).halfmove = p.halfmove := rfl
+      rw [hx]
+      split <;> omega
+    obtain ⟨sms, hg, hcs⟩ := ih _ hp' hwf' hh' hrest
+    rw [e] at hg hcs
+    exact ⟨sm :: sms, ⟨hsm, hg⟩, by show codeOf _ sm :: codesOf _ sms = c :: cs; rw [hcode, hcs]⟩
+
+/-- C05 (principal variations, in the rules' terms): on a well-formed root every reported pv is the code sequence of a line of moves
+    each legal under the rules in the position reached so far -/
+theorem C05_pv_legal_rules (root : Position) (hp : PlyOK root) (hwf : Spec.wf (Chess.absPos root) = true) (R : List Nat) (t : List Ev) (s : AState)
+    (h : acceptTrace root R t = .ok s) : ∀ pv, pv ∈ s.reportedPVs → root.halfmove + pv.length < 65535 →
+      ∃ sms, LegalGame (Chess.absPos root) sms ∧ codesOf (Chess.absPos root) sms = pv := by
+  intro pv hpv hh
+  exact legalLine_rules pv root hp hwf hh (C05_pv_legal root R t s h pv hpv)
 
 /-- non-vacuity: the shortest accepted trace — the stop is seen at once, no iteration completes, the fallback
     root move is reported -/
